@@ -13,6 +13,7 @@ package main
 import (
 	"encoding/binary"
 	"fmt"
+	"iter"
 	"os"
 	"sort"
 	"strconv"
@@ -22,6 +23,7 @@ import (
 	"github.com/NethermindEth/juno/blockchain"
 	"github.com/NethermindEth/juno/core"
 	"github.com/NethermindEth/juno/core/felt"
+	"github.com/NethermindEth/juno/core/pending"
 	"verifharness/chain"
 	"verifharness/hx"
 )
@@ -46,6 +48,7 @@ type Op struct {
 	G   bool     `json:"g,omitempty"`    // restart: graceful (running filter snapshot written)
 	Q   *Qry     `json:"q,omitempty"`
 	Ws  []uint64 `json:"ws,omitempty"`   // forget (model-only histories)
+	Pre []*Blk   `json:"pre,omitempty"`  // queryp: pre-confirmed blocks above the head, oldest first
 	S   uint64   `json:"salt,omitempty"` // light
 }
 
@@ -172,6 +175,7 @@ type realRun struct {
 	newState bool
 	naive    [][]nev // per block
 	viols    []viol
+	pre      *preChain
 	quiet    bool // shrinking: no counters
 	long     bool
 }
@@ -334,7 +338,12 @@ func (r *realRun) realPage(q *Qry, cfg pcfg, tok *blockchain.ContinuationToken) 
 		}
 		keys = append(keys, row)
 	}
-	f, err := r.node.BC.EventFilter(addrs, keys, preConfNil)
+	preFn := preConfNil
+	if r.pre != nil {
+		pc := r.pre
+		preFn = func() (blockchain.PreConfirmedReader, error) { return pc, nil }
+	}
+	f, err := r.node.BC.EventFilter(addrs, keys, preFn)
 	if err != nil {
 		return nil, nil, next, err
 	}
@@ -440,10 +449,96 @@ func (r *realRun) classify(q *Qry, cfg pcfg, spec []string, kind string) string 
 	return "unexplained:" + kind
 }
 
-func (r *realRun) query(q *Qry, cfgs []pcfg) {
+// the pre-confirmed chain handed to EventFilter (what rpc/v10 gets from syncReader.PreConfirmedChain)
+type preChain struct{ items []*pending.PreConfirmed }
+
+func (p *preChain) Length() int                { return len(p.items) }
+func (p *preChain) Head() *pending.PreConfirmed { return p.items[len(p.items)-1] }
+func (p *preChain) OldestFirst() iter.Seq[*pending.PreConfirmed] {
+	return func(yield func(*pending.PreConfirmed) bool) {
+		for _, x := range p.items {
+			if !yield(x) {
+				return
+			}
+		}
+	}
+}
+
+// buildPre turns block specs into pre-confirmed blocks numbered height, height+1, ... and returns the
+// naive view of their events.
+func buildPre(height uint64, pre []*Blk) (*preChain, [][]nev) {
+	pc := &preChain{}
+	var views [][]nev
+	for i, b := range pre {
+		n := height + uint64(i)
+		var rcs []*core.TransactionReceipt
+		var view []nev
+		for ti, t := range b.Txs {
+			th := chain.F(7_000_000 + n*100 + uint64(ti))
+			rc := &core.TransactionReceipt{TransactionHash: th}
+			for ei, e := range t {
+				ev := &core.Event{From: chain.F(e.From)}
+				ks := make([]string, len(e.Keys))
+				for j, k := range e.Keys {
+					ev.Keys = append(ev.Keys, *chain.F(k))
+					ks[j] = chain.F(k).String()
+				}
+				ds := make([]string, len(e.Data))
+				for j, d := range e.Data {
+					ev.Data = append(ev.Data, *chain.F(d))
+					ds[j] = chain.F(d).String()
+				}
+				rc.Events = append(rc.Events, ev)
+				view = append(view, nev{tx: ti, idx: ei, from: e.From, keys: e.Keys,
+					canonical: fmt.Sprintf("%d.%d.%d|bh=<nil>|th=%s|from=%s|keys=%s|data=%s", n, ti, ei,
+						th.String(), chain.F(e.From).String(), strings.Join(ks, ","), strings.Join(ds, ","))})
+			}
+			rcs = append(rcs, rc)
+		}
+		blk := &core.Block{Header: &core.Header{Number: n, EventsBloom: core.EventsBloom(rcs),
+			TransactionCount: uint64(len(rcs))}, Receipts: rcs}
+		pc.items = append(pc.items, &pending.PreConfirmed{Block: blk})
+		views = append(views, view)
+	}
+	return pc, views
+}
+
+func blkWords(pre []*Blk) string {
+	w := make([]string, len(pre))
+	for i, b := range pre {
+		w[i] = blkLine(b)
+	}
+	return strings.Join(w, " ")
+}
+
+func (r *realRun) query(q *Qry, cfgs []pcfg) { r.queryX(q, nil, cfgs) }
+
+func (r *realRun) queryX(q *Qry, pre []*Blk, cfgs []pcfg) {
 	shortSpec, fullSpec := r.naiveScan(q)
+	height := uint64(len(r.naive))
+	var pc *preChain
+	qword, sword, preWords := "query", "spec", ""
+	if len(pre) > 0 && height > 0 {
+		var views [][]nev
+		pc, views = buildPre(height, pre)
+		qword, sword, preWords = "queryp", "specp", " "+blkWords(pre)
+		for i, view := range views {
+			n := height + uint64(i)
+			if n < q.From || n > q.To {
+				continue
+			}
+			for _, e := range view {
+				if naiveMatch(q, e.from, e.keys) {
+					shortSpec = append(shortSpec, fmt.Sprintf("%d.%d.%d", n, e.tx, e.idx))
+					fullSpec = append(fullSpec, e.canonical)
+				}
+			}
+		}
+	}
+	r.pre = pc
+	defer func() { r.pre = nil }()
 	// the Go naive scan and the theorem's filter_spec must be the same function
-	ms := strings.Fields(r.or.Ask(fmt.Sprintf("spec %s %d %d", filterWords(q), q.From, q.To), 1)[0])
+	ms := strings.Fields(r.or.Ask(fmt.Sprintf("%s %s %d %d%s", sword, filterWords(q), q.From, q.To, preWords), 1)[0])
 	if ms[1] != evsWord(shortSpec) {
 		r.fail("spec-mismatch", fmt.Sprintf("naive scan %s vs filter_spec %s for %+v", evsWord(shortSpec), ms[1], *q), true)
 	}
@@ -457,7 +552,7 @@ func (r *realRun) query(q *Qry, cfgs []pcfg) {
 		for {
 			pages++
 			short, full, next, err := r.realPage(q, cfg, tok)
-			m := r.or.Ask(fmt.Sprintf("query %s %d %d %d %d %s %s", filterWords(q), q.From, q.To, cfg.chunk, cfg.limit, tb, tc), 1)[0]
+			m := r.or.Ask(fmt.Sprintf("%s %s %d %d %d %d %s %s%s", qword, filterWords(q), q.From, q.To, cfg.chunk, cfg.limit, tb, tc, preWords), 1)[0]
 			var impl string
 			if err != nil {
 				impl = "err"
@@ -508,9 +603,42 @@ func (r *realRun) query(q *Qry, cfgs []pcfg) {
 			if kind == "reordered" && eqS(allShort, shortSpec) {
 				kind = "tags"
 			}
-			class := r.classify(q, cfg, shortSpec, kind)
-			r.fail(class, fmt.Sprintf("query %+v chunk=%d limit=%d height=%d: got %s want %s (%s)", *q, cfg.chunk, cfg.limit,
-				len(r.naive), evsWord(allShort), evsWord(shortSpec), kind), false)
+			var class string
+			canon := func(xs []string) []string { // events of canonical blocks only
+				var out []string
+				for _, x := range xs {
+					b, _ := strconv.ParseUint(strings.SplitN(x, ".", 2)[0], 10, 64)
+					if b < height {
+						out = append(out, x)
+					}
+				}
+				return out
+			}
+			if pc != nil && eqS(canon(allShort), canon(shortSpec)) {
+				class = "preconfirmed:" + kind
+			} else {
+				class = r.classify(q, cfg, canon(shortSpec), kind)
+			}
+			r.fail(class, fmt.Sprintf("query %+v chunk=%d limit=%d height=%d preconfirmed=[%s]: got %s want %s (%s)", *q, cfg.chunk, cfg.limit,
+				len(r.naive), strings.TrimSpace(preWords), evsWord(allShort), evsWord(shortSpec), kind), false)
+		}
+	}
+}
+
+// sweep: every range [a, b] around the window boundary W (b = W-2..W+2, a in {0, W-192, W-1, W}), chunk sizes
+// 1..3 with continuation tokens crossing the boundary, with and without a scan limit
+func (r *realRun) sweep(W uint64) {
+	var cfgs []pcfg
+	for ch := uint64(1); ch <= 3; ch++ {
+		cfgs = append(cfgs, pcfg{ch, 0}, pcfg{ch, 1}, pcfg{ch, 2})
+	}
+	for _, a := range []uint64{0, W - 192, W - 1, W} {
+		for b := W - 2; b <= W+2; b++ {
+			r.query(&Qry{Addrs: []uint64{10}, From: a, To: b}, cfgs)
+			r.query(&Qry{Keys: [][]uint64{{}, {2, 3}}, From: a, To: b}, cfgs[:3])
+			if !r.quiet {
+				r.c.Hist["sweep-range"]++
+			}
 		}
 	}
 }
@@ -592,6 +720,10 @@ func runReal(c *hx.Ctx, or *hx.Oracle, h *History, cfgs []pcfg, quiet bool) []vi
 			r.restart(o.G)
 		case "query":
 			r.query(o.Q, cfgs)
+		case "queryp":
+			r.queryX(o.Q, o.Pre, cfgs)
+		case "sweep":
+			r.sweep(uint64(o.N))
 		}
 	}
 	// the naive table must still be what the database holds
@@ -651,7 +783,9 @@ func genFilter(rng *hx.RNG) ([]uint64, [][]uint64) {
 		addrs = []uint64{99}
 	}
 	var keys [][]uint64
-	switch rng.Intn(8) {
+	switch rng.Intn(9) {
+	case 8:
+		keys = [][]uint64{{uniKeys[rng.Intn(3)], uniKeys[rng.Intn(3)]}, {}}
 	case 0, 1, 2:
 	case 3:
 		keys = [][]uint64{{uniKeys[rng.Intn(3)]}}
@@ -699,6 +833,24 @@ func genQuery(rng *hx.RNG, height int, points []uint64) *Qry {
 	return q
 }
 
+// a query whose range reaches 1..3 pre-confirmed blocks above the head
+func genQueryP(rng *hx.RNG, height int, addrs []uint64) Op {
+	np := 1 + rng.Intn(3)
+	var pre []*Blk
+	for i := 0; i < np; i++ {
+		b := genBlock(rng, addrs, 7)
+		if len(b.Txs) == 0 && rng.Chance(70) {
+			b.Txs = [][]chain.Ev{{genEvent(rng, addrs), genEvent(rng, addrs)}}
+		}
+		pre = append(pre, b)
+	}
+	q := genQuery(rng, height-1+np, nil)
+	if rng.Chance(70) {
+		q.To = uint64(height + np + 1)
+	}
+	return Op{K: "queryp", Q: q, Pre: pre}
+}
+
 func genShort(rng *hx.RNG) *History {
 	h := &History{Kind: "real", W: core.NumBlocksPerFilter, NewState: rng.Bool()}
 	height := 0
@@ -721,14 +873,17 @@ func genShort(rng *hx.RNG) *History {
 			salt++
 		case x < 80:
 			h.Ops = append(h.Ops, Op{K: "restart", G: rng.Bool()})
-		default:
+		case x < 90:
 			h.Ops = append(h.Ops, Op{K: "query", Q: genQuery(rng, height-1, nil)})
+		default:
+			h.Ops = append(h.Ops, genQueryP(rng, height, addrs))
 		}
 	}
 	var qs []Op
 	for i := 0; i < 3; i++ {
 		qs = append(qs, Op{K: "query", Q: genQuery(rng, height-1, nil)})
 	}
+	qs = append(qs, genQueryP(rng, height, addrs))
 	h.Ops = append(h.Ops, qs...)
 	h.Ops = append(h.Ops, Op{K: "restart", G: false})
 	h.Ops = append(h.Ops, qs...)
@@ -1050,8 +1205,12 @@ func corpus() []*History {
 	b12.Salt = 1
 	return []*History{
 		// stale cache: window 0 cached by a query, reverted into, refilled with different blocks
+		// (first: events in blocks W-1, W, W+1 and a sweep of all ranges around the boundary, once with the head
+		// exactly at W and once at W+2 - before any reorg, so the cache is fresh)
 		{Kind: "real", W: uint64(W), NewState: true, Ops: []Op{
-			{K: "light", N: 100}, {K: "store", Blk: evB(10)}, {K: "light", N: W - 101 + 3}, qa(10, W+2),
+			{K: "light", N: 100}, {K: "store", Blk: evB(10)}, {K: "light", N: W - 1 - 101},
+			{K: "store", Blk: bnd(10)}, {K: "store", Blk: bnd(10)}, {K: "sweep", N: W},
+			{K: "store", Blk: bnd(10)}, {K: "light", N: 1}, {K: "sweep", N: W}, qa(10, W+2),
 			{K: "revert", N: W + 3 - 51}, {K: "light", N: 49, S: 1}, {K: "store", Blk: b12}, {K: "light", N: W - 101 + 3, S: 1},
 			qa(12, W+2), qa(10, W+2)}},
 		// stale snapshot: written at a graceful stop, head replaced afterwards, then a crash
@@ -1063,7 +1222,41 @@ func corpus() []*History {
 		{Kind: "real", W: uint64(W), NewState: true, Ops: []Op{
 			{K: "light", N: W + 1}, {K: "revert", N: W + 1 - 51}, {K: "store", Blk: b12}, {K: "restart", G: false},
 			qa(12, 60), {K: "light", N: 1, S: 1}}},
+		// pre-confirmed blocks above the head: wildcard key positions, alternatives, address sets, ranges that
+		// start below / at / above the head, tokens crossing the canonical / pre-confirmed border
+		{Kind: "real", W: uint64(W), NewState: false, Ops: preOps()},
 	}
+}
+
+func bnd(a uint64) *Blk {
+	return &Blk{Txs: [][]chain.Ev{{{From: a, Keys: []uint64{1, 2}}, {From: a, Keys: []uint64{2, 3}}}, {{From: a, Keys: []uint64{1}}}}}
+}
+
+func preOps() []Op {
+	pre := []*Blk{
+		{Txs: [][]chain.Ev{{{From: 10, Keys: []uint64{1, 2}}, {From: 11, Keys: []uint64{3, 2}, Data: []uint64{5}}}}},
+		{Txs: [][]chain.Ev{}},
+		{Txs: [][]chain.Ev{{{From: 10, Keys: []uint64{1, 7}}}, {{From: 12, Keys: []uint64{2, 2, 3}}, {From: 10, Keys: []uint64{1, 2}}}}},
+	}
+	ops := []Op{{K: "light", N: 2}, {K: "store", Blk: bnd(10)}, {K: "store", Blk: evB(11)}}
+	filters := []Qry{
+		{}, {Addrs: []uint64{10}}, {Addrs: []uint64{11, 12}}, {Addrs: []uint64{99}},
+		{Keys: [][]uint64{{1}, {}}}, {Keys: [][]uint64{{}, {2}}}, {Keys: [][]uint64{{1, 3}, {}}},
+		{Keys: [][]uint64{{}, {2, 7}}}, {Keys: [][]uint64{{}, {}, {3}}}, {Keys: [][]uint64{{}, {}}},
+		{Addrs: []uint64{10, 11}, Keys: [][]uint64{{1, 3}, {2}}}, {Addrs: []uint64{10}, Keys: [][]uint64{{}, {7}}},
+	}
+	ranges := [][2]uint64{{0, 10}, {0, 4}, {3, 5}, {4, 6}, {5, 10}, {6, 6}}
+	for i := range filters {
+		for j, rg := range ranges {
+			if j > 1 && i%3 != j%3 {
+				continue
+			}
+			q := filters[i]
+			q.From, q.To = rg[0], rg[1]
+			ops = append(ops, Op{K: "queryp", Q: &q, Pre: pre})
+		}
+	}
+	return ops
 }
 
 func main() {
